@@ -48,54 +48,58 @@ def _attrs(obj: Any) -> list[str]:
     return names
 
 
-def locate(node: Any, token: Any, want: str) -> str:
-    """Where, below the rendering *node*, lives the expression object of class *want*
-    that owns *token*: 'Class.attr>Class.attr' (the last three links).  Only used to name
-    the mechanism of a violation, never to decide one."""
-    if node is None or token is None:
-        return ""
-    from liquid2.ast import Node
+def _children_of(o: Any) -> list[tuple[str, Any]]:
+    """(attribute, value) pairs of a liquid2 object; list/dict members flattened."""
+    out: list[tuple[str, Any]] = []
+    for a in _attrs(o):
+        if a in ("token", "env", "source", "blank", "end_tag_token"):
+            continue
+        try:
+            v = getattr(o, a)
+        except AttributeError:
+            continue
+        if isinstance(v, (list, tuple)):
+            out += [(a, x) for x in v]
+        elif isinstance(v, dict):
+            out += [(a, x) for x in v.values()]
+        else:
+            out.append((a, v))
+    return out
 
+
+def _is_l2(o: Any) -> bool:
+    return o is not None and not isinstance(o, (str, int, float, bool)) and \
+        type(o).__module__.startswith("liquid2") and not type(o).__name__.endswith("Token")
+
+
+def locate(node: Any, token: Any, want: str) -> list[tuple[Any, str, Any]]:
+    """Links (owner, attribute, value) from the rendering *node* down to the object of
+    class *want* that owns *token*.  Only used to name the mechanism of a violation,
+    never to decide one."""
+    if node is None or token is None:
+        return []
     seen: set[int] = set()
 
-    def walk(o: Any, chain: list[str], depth: int) -> list[str] | None:
-        if depth > 14 or o is None or isinstance(o, (str, int, float, bool)) or id(o) in seen:
+    def walk(o: Any, chain: list[tuple[Any, str, Any]], depth: int) -> list[tuple[Any, str, Any]] | None:
+        if depth > 16 or id(o) in seen:
             return None
         seen.add(id(o))
         if type(o).__name__ == want and getattr(o, "token", None) is token:
             return chain
-        if isinstance(o, (list, tuple)):
-            for x in o:
-                r = walk(x, chain, depth + 1)
+        for a, v in _children_of(o):
+            if isinstance(v, (list, tuple)):
+                vs = [(a, x) for x in v]
+            else:
+                vs = [(a, v)]
+            for a2, v2 in vs:
+                if not _is_l2(v2):
+                    continue
+                r = walk(v2, chain + [(o, a2, v2)], depth + 1)
                 if r is not None:
                     return r
-            return None
-        if isinstance(o, dict):
-            for x in o.values():
-                r = walk(x, chain, depth + 1)
-                if r is not None:
-                    return r
-            return None
-        if not type(o).__module__.startswith("liquid2"):
-            return None
-        if isinstance(o, Node) and depth > 0:
-            return None
-        for a in _attrs(o):
-            if a in ("token", "env", "source", "blank"):
-                continue
-            try:
-                v = getattr(o, a)
-            except AttributeError:
-                continue
-            r = walk(v, chain + [f"{type(o).__name__}.{a}"], depth + 1)
-            if r is not None:
-                return r
         return None
 
-    chain = walk(node, [], 0)
-    if not chain or len(chain) < 2:
-        return ""
-    return ">".join(chain[1:][-3:])
+    return walk(node, [], 0) or []
 
 
 def _node_name(node: Any) -> str:
@@ -171,7 +175,7 @@ class Recorder:
             return
         key = (token.source, token.start, token.stop)
         if key not in self.lookups:
-            self.lookups[key] = (list(path), self.node_top(), self.node_obj(), token)
+            self.lookups[key] = (list(path), self.node_top(), tuple(self.node_stack), token)
 
     def on_global(self, key: object) -> None:
         self.n_global += 1
@@ -220,14 +224,14 @@ class Recorder:
             return  # raises DisabledTagError: the tag is not executed
         key = (tok.source, tok.start, tok.stop, name)
         if key not in self.tags:
-            self.tags[key] = _node_name(node)
+            self.tags[key] = (_node_name(node), tuple(self.node_stack))
 
     def on_filter(self, name: str, token: Any) -> None:
         self.n_filter += 1
         key = (getattr(token, "source", None), getattr(token, "start", None),
                getattr(token, "stop", None), name)
         if key not in self.filters:
-            self.filters[key] = (self.node_top(), self.node_obj(), token)
+            self.filters[key] = (self.node_top(), tuple(self.node_stack), token)
 
     def on_namespace(self, ns: Any) -> None:
         try:
@@ -540,6 +544,7 @@ class Checker:
         self.ctx = ctx
         self.record = record and ctx is not None
         self.rec = Recorder()
+        self.case_exec: set[tuple] = set()
         self._relex_cache: dict[str, Any] = {}
         self._relex_env: Any = None
 
@@ -829,6 +834,84 @@ class Checker:
                                 f"{meth}{suffix}() returns duplicates: {sorted(map(repr, gl))[:12]}",
                                 {"method": meth + suffix}))
 
+
+    # ------------------------------------------------------- naming the mechanism
+    def _reported(self, cs: Case, st: Static) -> set[tuple]:
+        key = id(st)
+        if getattr(self, "_rep_key", None) != key:
+            rep: set[tuple] = set()
+            for (nm, a0, b0) in st.var_at:
+                rep.add((cs.source_named(nm), a0, b0))
+            for (nm, a0, b0, _n) in st.filter_at:
+                rep.add((cs.source_named(nm), a0, b0))
+            for (nm, a0, b0, _n) in st.tag_at:
+                rep.add((cs.source_named(nm), a0, b0))
+            self._rep = rep
+            self._rep_key = key
+            self._has_memo: dict[int, bool] = {}
+            self._keep = st
+        return self._rep
+
+    def has_reported(self, o: Any, rep: set[tuple], budget: list[int]) -> bool:
+        """Does analyze() report anything located in the subtree of *o*?"""
+        memo = self._has_memo
+        i = id(o)
+        if i in memo:
+            return memo[i]
+        memo[i] = False  # cycle guard
+        budget[0] -= 1
+        if budget[0] < 0:
+            memo[i] = True  # do not blame what was not examined
+            return True
+        tok = getattr(o, "token", None)
+        res = False
+        tn = type(o).__name__
+        if tok is not None and tn in ("Path", "Filter") and \
+                (getattr(tok, "source", None), getattr(tok, "start", None), getattr(tok, "stop", None)) in rep:
+            res = True
+        elif tok is not None and type(tok).__name__ in ("TagToken", "LinesToken") and \
+                tn not in ("BlockNode", "ConditionalBlockNode", "MultiExpressionBlockNode") and \
+                hasattr(o, "render_to_output") and (tok.source, tok.start, tok.stop) in rep:
+            res = True
+        if not res:
+            for _a, v in _children_of(o):
+                if _is_l2(v) and self.has_reported(v, rep, budget):
+                    res = True
+                    break
+        memo[i] = res
+        return res
+
+    def blame(self, cs: Case, st: Static, stack: tuple, token: Any, want: str | None) -> str | None:
+        """The first link, from the outermost rendering node down to the object owning
+        *token*, that leads into a subtree of which analyze() reports nothing."""
+        rep = self._reported(cs, st)
+        budget = [60000]
+        if not stack:
+            return None
+        inner = stack[-1]
+        for i, node in enumerate(stack[:-1]):
+            if not self.has_reported(node, rep, budget):
+                return (_node_name(stack[i - 1]) if i else "<template>") + ".children"
+        if want is None:
+            return None
+        if want == "Filter":
+            # filters are reported through another channel than variables: name the place
+            links = locate(inner, token, want)
+            return ">".join(f"{type(o).__name__}.{a}" for o, a, _v in links[-2:]) or None
+        if not self.has_reported(inner, rep, budget):
+            tok = getattr(inner, "token", None)
+            if len(stack) > 1 and not (tok is not None and (getattr(tok, "source", None), getattr(tok, "start", None),
+                                                            getattr(tok, "stop", None)) in rep):
+                return _node_name(stack[-2]) + ".children|" + _node_name(inner) + ".expressions"
+            return _node_name(inner) + ".expressions"
+        links = locate(inner, token, want)
+        for owner, attr, val in links:
+            if not self.has_reported(val, rep, budget):
+                return f"{type(owner).__name__}.{attr}"
+        if links:
+            return ">".join(f"{type(o).__name__}.{a}" for o, a, _v in links[-2:])
+        return None
+
     # ---------------------------------------------------------------- runtime
     def check_runtime(self, cs: Case, st: Static, binders: set[str], out: list,
                       root_only: bool) -> dict[str, int]:
@@ -839,10 +922,11 @@ class Checker:
         def names(src: Any) -> list[str]:
             return cs.names_of.get(src, [])
 
-        for (src, start, stop), (path, node, nobj, tok) in rec.lookups.items():
+        for (src, start, stop), (path, node, stack, tok) in rec.lookups.items():
             if root_only and src != root_src:
                 continue
             n["lookups"] += 1
+            self.case_exec.add((src, start, stop))
             ok = False
             for nm in names(src):
                 for segs in st.var_at.get((nm, start, stop), ()):
@@ -855,8 +939,8 @@ class Checker:
                 tn = names(src)
                 text = src[start:stop] if isinstance(src, str) and 0 <= start <= stop <= len(src) else None
                 near = [segs for nm in tn for segs in st.var_at.get((nm, start, stop), ())]
-                where = locate(nobj, tok, "Path")
-                out.append((f"vars:missing@{node}" + (f":{where}" if where else ""),
+                where = self.blame(cs, st, stack, tok, "Path") or node
+                out.append((f"vars:missing@{where}",
                             f"the render looked up {_short_path(path)} at {tn}[{start}:{stop}] = {text!r} "
                             f"but analyze().variables has no such entry there"
                             + (f" (entries at that span: {near!r})" if near else ""),
@@ -868,11 +952,12 @@ class Checker:
                             f"the render looked up {root!r} (no token) but analyze().variables has no {root!r}",
                             {"root": root}))
         bound = binders | rec.bound_names()
+        unreported_message_vars: set[str] = set()
         for (name, owner), info in rec.resolves.items():
             if root_only and info.get("source") != root_src:
                 continue
             n["resolves"] += 1
-            if name not in bound:
+            if name in IMPLICIT_CONFIG_NAMES:
                 continue  # decided by the globals check below
             tn = names(info.get("source"))
             ok = False
@@ -881,26 +966,28 @@ class Checker:
                     if info["start"] is None or (info["start"] <= s and e <= (info["stop"] or 10**9)):
                         ok = True
             if not ok:
+                unreported_message_vars.add(name)
                 out.append((f"vars:missing@resolve:{owner}",
                             f"{owner} looked up {name!r} with context.resolve(); the name reached the global "
                             f"namespace but analyze().variables has no {name!r} inside that markup",
                             {"name": name, "owner": owner, "template": tn}))
-        for (src, start, stop, name), (node, nobj, tok) in rec.filters.items():
+        for (src, start, stop, name), (node, stack, tok) in rec.filters.items():
             if root_only and src != root_src:
                 continue
             n["filters"] += 1
             if not any((nm, start, stop, name) in st.filter_at for nm in names(src)):
-                where = locate(nobj, tok, "Filter") or node
+                where = self.blame(cs, st, stack, tok, "Filter") or node
                 out.append((f"filters:missing@{where}",
                             f"the render applied filter {name!r} at {names(src)}[{start}:{stop}] but "
                             f"analyze().filters has no such entry",
                             {"filter": name, "template": names(src), "start": start, "stop": stop}))
-        for (src, start, stop, name), node in rec.tags.items():
+        for (src, start, stop, name), (node, stack) in rec.tags.items():
             if root_only and src != root_src:
                 continue
             n["tags"] += 1
             if not any((nm, start, stop, name) in st.tag_at for nm in names(src)):
-                out.append((f"tags:missing:{name}",
+                up = self.blame(cs, st, stack + (None,), None, None)
+                out.append((f"tags:missing@{up}" if up else f"tags:missing:{name}",
                             f"the render executed tag {name!r} ({node}) at {names(src)}[{start}:{stop}] but "
                             f"analyze().tags has no such entry",
                             {"tag": name, "template": names(src), "start": start, "stop": stop}))
@@ -912,7 +999,7 @@ class Checker:
                 self.count("globals_excluded_bound_somewhere")
                 continue
             n["globals"] += 1
-            if name in st.global_names:
+            if name in st.global_names or name in unreported_message_vars:
                 continue
             if info["via"] == "resolve":
                 kind = ("implicit-config" if name in IMPLICIT_CONFIG_NAMES else "message-variable") + f"@{info['owner']}"
@@ -989,6 +1076,7 @@ def run_case(chk: Checker, case: dict[str, Any], only: str | None = None) -> lis
         chk.check_async_and_helpers(cs, a, out)
     binders = set(case.get("binders") or ())
     rec = chk.rec
+    chk.case_exec = set()
     for i, data in enumerate((case.get("datasets") or []) if want_runtime else []):
         mode = "async" if i % 3 == 2 else "sync"
         if case.get("modes"):
@@ -1033,10 +1121,17 @@ def run_case(chk: Checker, case: dict[str, Any], only: str | None = None) -> lis
                 ctx.seen("tags_executed", name)
             for (_s, _a, _b, name) in rec.filters:
                 ctx.seen("filters_applied", name)
-            for node in rec.tags.values():
+            for node, _st in rec.tags.values():
                 ctx.seen("node_classes", node)
             if n["lookups"] and n["filters"] and n["tags"]:
                 ctx.nt(sorted(cs.templates.items()), repr(data), mode)
+    if ctx is not None and case.get("posmap") and case.get("datasets"):
+        for tname, pm in case["posmap"].items():
+            src = cs.templates.get(tname)
+            for a0, b0, _sg, _lb in pm["paths"]:
+                ctx.count("written_paths")
+                if (src, a0, b0) in chk.case_exec:
+                    ctx.count("written_paths_executed")
     # one report per (key, location)
     seen: set[tuple] = set()
     uniq = []
